@@ -26,7 +26,7 @@ enum R {
 }
 
 fn lone(fi: usize, s: &str) -> Result<R, Failure> {
-    match guard(|| fmts::e(fi).parse::<Narsese>(s)) {
+    match crate::pipes::enum_parse_raw(fi, s) {
         Err(p) => Err(Failure::new("panic:parse", format!("input {s:?}\npanic {p}"))),
         Ok(Err(_)) => Ok(R::Err),
         Ok(Ok(v)) => Ok(R::Ok(canon_n(&v))),
@@ -121,7 +121,8 @@ pub fn check(sh: &Shared, c: &Case) -> Check {
         }
     }
     // batch
-    let batch = match guard(|| f.parse_multi(texts.iter().copied())) {
+    // (the batch goes through a format value at a reused address for half of the cases)
+    let batch = match crate::slots::with_e(fi, crate::slots::key_of(&texts.concat()), |f| guard(|| f.parse_multi(texts.iter().copied()).into_iter().map(|r| r.map_err(|e| e.to_string())).collect::<Vec<_>>())) {
         Err(p) => fail!("panic:parse_multi", "inputs {texts:?}\npanic {p}"),
         Ok(v) => v,
     };
